@@ -6,7 +6,7 @@ From Coq Require Import ZArith List String Sorted.
 Import ListNotations.
 From FGV Require Import Base.Util Base.Bond Base.NX Base.NXFacts Model.Matrix Model.Prune
   Spec.WalkDef Spec.PruneSpec Spec.PruneCheck
-  Proofs.Walk Proofs.UnreachProofs Proofs.RcProofs Proofs.PruneProofs Proofs.PruneCheckProofs.
+  Proofs.Walk Proofs.UnreachProofs Proofs.RcProofs Proofs.PruneProofs Proofs.PruneCheckProofs Proofs.UnreachMore.
 Open Scope Z_scope.
 
 (** ** walks and adjacency-matrix powers *)
@@ -68,6 +68,28 @@ Theorem C11_unreachable_result : forall g S r,
   | Err _ => False
   end.
 Proof. exact unreachable_result. Qed.
+
+(* the result shrinks when the radius grows ... *)
+Theorem C11_unreachable_antitone_radius : forall g S r r' L L',
+  wf g -> (r <= r')%nat ->
+  get_unreachable_nodes g S r = Ok L -> get_unreachable_nodes g S r' = Ok L' -> incl L' L.
+Proof. exact unreachable_antitone_radius. Qed.
+
+(* ... and when the start set grows *)
+Theorem C11_unreachable_antitone_start : forall g S S' r L L',
+  wf g -> incl S S' ->
+  get_unreachable_nodes g S r = Ok L -> get_unreachable_nodes g S' r = Ok L' -> incl L' L.
+Proof. exact unreachable_antitone_start. Qed.
+
+(* the specification admits exactly one result list, so a list the checker accepts is the model's output *)
+Theorem C11_unreachable_spec_unique : forall g S r L1 L2,
+  unreachable_spec g S r L1 -> unreachable_spec g S r L2 -> L1 = L2.
+Proof. exact unreachable_spec_unique. Qed.
+
+Theorem C11_unreachable_checker_exact : forall g S r L,
+  wf g -> unreachable_okb g S r (Ok L) = true ->
+  forall L', get_unreachable_nodes g S r = Ok L' -> L' = L.
+Proof. exact unreachable_okb_exact. Qed.
 
 (** ** get_rc *)
 
@@ -210,3 +232,7 @@ Print Assumptions C11_prune_checker_sound.
 Print Assumptions C11_example_pentane.
 Print Assumptions C11_example_rc.
 Print Assumptions C11_example_prune.
+Print Assumptions C11_unreachable_antitone_radius.
+Print Assumptions C11_unreachable_antitone_start.
+Print Assumptions C11_unreachable_spec_unique.
+Print Assumptions C11_unreachable_checker_exact.
